@@ -49,7 +49,11 @@ type input struct {
 	UseSplit bool       `json:"use_split"`
 	Series   []seriesIn `json:"series"`
 	Queries  []queryIn  `json:"queries"`
-	Note     string     `json:"note,omitempty"`
+	// the downstream answers with Cache-Control: no-store when the request starts in one of these intervals
+	NoStore [][2]int64 `json:"nostore,omitempty"`
+	// when > 0 the query is `m @ <AtMs/1000>` (ms); a response fetched for a request ending before it is not storable
+	AtMs int64  `json:"at_ms,omitempty"`
+	Note string `json:"note,omitempty"`
 }
 
 type limits struct{}
@@ -108,6 +112,28 @@ func facts(repo string, w io.Writer) error {
 	fmt.Fprintf(w, "Definition min_cache_extent : Z := %d.\n", queryrange.VerifC42MinCacheExtent(mw))
 	fmt.Fprintln(w, "(* pkg/queryfrontend/cache.go: commonQuerySteps, in order *)")
 	fmt.Fprintf(w, "Definition common_query_steps : list Z := %s.\n", common.ZList(queryfrontend.VerifC42CommonQuerySteps()))
+	// handleHit: the fetched response is appended to the answer before the shouldCacheResponse test
+	evs, err := s.CallOrder("resultsCache.handleHit")
+	if err != nil {
+		return err
+	}
+	iDo := common.IndexOf(evs, "call", "DoRequests")
+	if iDo < 0 {
+		return fmt.Errorf("srcfacts: handleHit: no call to DoRequests")
+	}
+	loop := evs[iDo+1:]
+	iApp, iTest := common.IndexOf(loop, "call", "append"), common.IndexOf(loop, "call", "s.shouldCacheResponse")
+	if iApp < 0 || iTest < 0 {
+		return fmt.Errorf("srcfacts: handleHit: append / s.shouldCacheResponse not found after DoRequests")
+	}
+	end := iTest + 4
+	if end > len(loop) {
+		end = len(loop)
+	}
+	fmt.Fprintln(w, "(* results_cache.go handleHit: events after DoRequests up to the shouldCacheResponse test (source order) *)")
+	fmt.Fprint(w, common.EventsCoq("handle_hit_loop_events", loop[:end]))
+	fmt.Fprintln(w, "(* is the first append (responses = append(responses, reqResp.Response)) before the test? *)")
+	fmt.Fprintf(w, "Definition answer_appended_before_store_test : bool := %s.\n", common.Bool(iApp < iTest))
 	// the sort.Search predicates of SliceSamples / SliceHistogram: `ts > minTs` drops the sample at minTs
 	qr, err := common.ParseSrc(repo, "internal/cortex/querier/queryrange/query_range.go")
 	if err != nil {
@@ -203,7 +229,7 @@ func present(s seriesIn, t int64) bool {
 func sidLabel(id int64) string { return fmt.Sprintf("%03d", id) }
 
 // downstream answers a range query from the series descriptions.
-func downstream(series []seriesIn, calls *int) queryrange.Handler {
+func downstream(series []seriesIn, nostore [][2]int64, calls *int) queryrange.Handler {
 	return queryrange.HandlerFunc(func(_ context.Context, r queryrange.Request) (queryrange.Response, error) {
 		*calls++
 		var res []queryrange.SampleStream
@@ -227,8 +253,14 @@ func downstream(series []seriesIn, calls *int) queryrange.Handler {
 				})
 			}
 		}
-		return &queryrange.PrometheusResponse{Status: queryrange.StatusSuccess,
-			Data: queryrange.PrometheusData{ResultType: "matrix", Result: res}}, nil
+		resp := &queryrange.PrometheusResponse{Status: queryrange.StatusSuccess,
+			Data: queryrange.PrometheusData{ResultType: "matrix", Result: res}}
+		for _, iv := range nostore {
+			if iv[0] <= r.GetStart() && r.GetStart() <= iv[1] {
+				resp.Headers = []*queryrange.PrometheusResponseHeader{{Name: "Cache-Control", Values: []string{"no-store"}}}
+			}
+		}
+		return resp, nil
 	})
 }
 
@@ -279,6 +311,21 @@ func matrixOf(resp queryrange.Response) ([]obsStream, error) {
 		}
 	}
 	return out, nil
+}
+
+func coqIntervals(ivs [][2]int64) string {
+	var out []string
+	for _, iv := range ivs {
+		out = append(out, common.Pair(common.Z(iv[0]), common.Z(iv[1])))
+	}
+	return common.List(out)
+}
+
+func coqAt(at int64) string {
+	if at > 0 {
+		return common.Some(common.Z(at))
+	}
+	return common.None
 }
 
 func coqMatrix(m []obsStream) string {
@@ -333,7 +380,7 @@ func run(raw json.RawMessage) (common.Case, error) {
 	calls := 0
 	const uid = "t"
 	rec := &keyRecorder{keys: map[string][2]int64{}, uid: uid}
-	rec.next = mw.Wrap(downstream(in.Series, &calls))
+	rec.next = mw.Wrap(downstream(in.Series, in.NoStore, &calls))
 	var h queryrange.Handler = rec
 	interval := time.Duration(in.SplitMs) * time.Millisecond
 	codec := queryfrontend.NewThanosQueryRangeCodec(false)
@@ -343,6 +390,10 @@ func run(raw json.RawMessage) (common.Case, error) {
 	h = queryrange.StepAlignMiddleware.Wrap(h)
 	ctx := user.InjectOrgID(context.Background(), uid)
 
+	query := "m"
+	if in.AtMs > 0 {
+		query = fmt.Sprintf("m @ %d.%03d", in.AtMs/1000, in.AtMs%1000)
+	}
 	var resps [][]obsStream
 	var coqResps []string
 	wrong := -1
@@ -350,7 +401,7 @@ func run(raw json.RawMessage) (common.Case, error) {
 		if q.Step <= 0 || q.End < q.Start {
 			return c, fmt.Errorf("bad query")
 		}
-		req := &queryfrontend.ThanosQueryRangeRequest{Path: "/api/v1/query_range", Start: q.Start, End: q.End, Step: q.Step, Query: "m", Dedup: true, SplitInterval: interval}
+		req := &queryfrontend.ThanosQueryRangeRequest{Path: "/api/v1/query_range", Start: q.Start, End: q.End, Step: q.Step, Query: query, Dedup: true, SplitInterval: interval}
 		resp, err := h.Do(ctx, req)
 		if err != nil {
 			return c, err
@@ -364,7 +415,7 @@ func run(raw json.RawMessage) (common.Case, error) {
 		// Go-side predicate: compare with direct evaluation of the aligned query
 		s, e := (q.Start/q.Step)*q.Step, (q.End/q.Step)*q.Step
 		n := 0
-		dresp, _ := downstream(in.Series, &n).Do(ctx, req.WithStartEnd(s, e))
+		dresp, _ := downstream(in.Series, nil, &n).Do(ctx, req.WithStartEnd(s, e))
 		dm, _ := matrixOf(dresp)
 		if wrong < 0 && fmt.Sprint(dm) != fmt.Sprint(m) {
 			wrong = i
@@ -426,7 +477,7 @@ func run(raw json.RawMessage) (common.Case, error) {
 	for _, q := range in.Queries {
 		qs = append(qs, common.Tuple(common.Z(q.Start), common.Z(q.End), common.Z(q.Step)))
 	}
-	c.Coq = common.App("CHist", common.Z(in.SplitMs), common.Bool(in.UseSplit), common.List(sd), common.List(qs), common.List(coqResps), common.List(coqCache))
+	c.Coq = common.App("CHist", common.Z(in.SplitMs), common.Bool(in.UseSplit), common.List(sd), coqIntervals(in.NoStore), coqAt(in.AtMs), common.List(qs), common.List(coqResps), common.List(coqCache))
 	c.Obs = map[string]any{"responses": resps, "cache": ks, "downstream_calls": calls}
 	c.Class = fmt.Sprintf("queries=%d split=%v", len(in.Queries), in.UseSplit)
 	if in.Note != "" {
@@ -517,6 +568,7 @@ func tinyMotif(r *rand.Rand, minExt int64) input {
 	if r.Intn(3) == 0 { // sometimes the tiny query comes first
 		in.Queries[0], in.Queries[1] = in.Queries[1], in.Queries[0]
 	}
+	scriptStorability(r, &in, base, t1)
 	return in
 }
 
@@ -581,9 +633,27 @@ func gen(r *rand.Rand, tier string, n int) []any {
 				in.Series[k].HPresent = iv
 			}
 		}
+		scriptStorability(r, &in, base, base+span)
 		out = append(out, in)
 	}
 	return out
+}
+
+// scriptStorability makes some fetched responses non-storable: the downstream answers
+// Cache-Control: no-store for requests starting in an interval, or the query carries an @ modifier
+// that lies beyond the end of some requests.
+func scriptStorability(r *rand.Rand, in *input, lo, hi int64) {
+	if r.Intn(4) == 0 {
+		for k := 1 + r.Intn(2); k > 0; k-- {
+			a := common.Between(r, lo, hi)
+			in.NoStore = append(in.NoStore, [2]int64{a, a + common.Between(r, 0, (hi-lo)/3+1)})
+		}
+	}
+	if r.Intn(5) == 0 {
+		if at := common.Between(r, lo, hi); at > 0 {
+			in.AtMs = at
+		}
+	}
 }
 
 func main() {
